@@ -30,19 +30,21 @@ Definition vunit (v : vec3) : vec3 :=
 Definition hemi_normal (pole : T) : vec3 :=
   (o_ofZ O 0, o_ofZ O 0, o_mul O pole (o_ofZ O (-1))).
 
-(* v <= region  ==  region >= v  ==  dot(normal, v) > -1e-9 ; the test is made
-   on the vector AS GIVEN (not normalised) *)
+(* v <= region  ==  region >= v  ==  dot(normal, v) > -1e-9 *)
 Definition region_ge (n v : vec3) : bool :=
   let '(n0, n1, n2) := n in let '(x, y, z) := v in region_ge_k O n0 n1 n2 x y z.
 
 Definition project1 (pole : T) (v : vec3) : pt2 :=
   let '(x, y, z) := vunit v in vector2xy_k O x y z pole.
 
-(* StereographicProjection(pole).vector2xy : v = v[v <= region]; _vector2xy(v, pole) *)
+(* StereographicProjection(pole).vector2xy : v = v.unit; v = v[v <= region];
+   _vector2xy(v, pole) -- the hemisphere test is made on the UNIT vectors, and
+   _vector2xy normalises what it is given once more (project1) *)
 Definition vector2xy (pole : T) (vs : list vec3) : list pt2 :=
-  map (project1 pole) (filter (region_ge (hemi_normal pole)) vs).
+  map (project1 pole) (filter (region_ge (hemi_normal pole)) (map vunit vs)).
 
-(* StereographicProjection.vector2xy_split : (upper with pole -1, lower with pole 1) *)
+(* StereographicProjection.vector2xy_split : v = v.unit; (upper with pole -1,
+   lower with pole 1) *)
 Definition vector2xy_split (vs : list vec3) : list pt2 * list pt2 :=
   (vector2xy (o_ofZ O (-1)) vs, vector2xy (o_ofZ O 1) vs).
 
